@@ -364,12 +364,19 @@ def run(ctx):
                      "nan": pitems[7][2]}],
         "exhaustive": True,
     }
+    # one large input (30000 events) through this property's entry points
+    from .. import big
+    viols = list(viols) + big.violations("C20", ctx.scratch)
+    cov["big_input_events"] = big.N
     return {"level": LEVEL, "coverage": cov, "violations": viols,
             "assumptions": ["mean compared to 1e-9 relative",
                             "N <= 6 events per file"]}
 
 
 def replay(case, ctx):
+    if case.get("kind") == "big":
+        from .. import big
+        return big.violations("C20", ctx.scratch)
     if case["kind"] == "append":
         _, _, vs = _comp_case((tuple(case["comp"]), case["reopen"],
                                ctx.scratch))
